@@ -484,6 +484,53 @@ pub fn options_leg(out: &mut Out) {
         let o = cli::run(&cli::sv(&args), &[("c.csv", base.as_bytes())], &[], Some(5), Duration::from_secs(10));
         judge_cli(&o, &format!("{args:?}"), out);
     }
+    // faults and unusual environments at particular points: outputs that cannot be written (device full, a directory), the
+    // same path for two outputs or for an input and an output, options given twice, odd spellings of values, `--`
+    let mut env_cases: Vec<Vec<&str>> = vec![];
+    for o in ["--json", "--xml", "--txt", "--oc", "--of"] {
+        env_cases.push(vec!["-c", "@c.csv", "-l", "PENINSULA", o, "/dev/full"]);
+        env_cases.push(vec!["-c", "@c.csv", "-l", "PENINSULA", o, "/"]);
+        env_cases.push(vec!["-c", "@c.csv", "-l", "PENINSULA", o, "@c.csv"]);
+        env_cases.push(vec!["-c", "@c.csv", "-l", "PENINSULA", o, ""]);
+    }
+    env_cases.extend([
+        vec!["-c", "@c.csv", "-l", "PENINSULA", "--json", "@o.x", "--xml", "@o.x", "--txt", "@o.x"],
+        vec!["-c", "@c.csv", "-l", "PENINSULA", "--oc", "@o.x", "--of", "@o.x"],
+        vec!["-c", "@c.csv", "-c", "@c.csv", "-l", "PENINSULA"],
+        vec!["-c", "@c.csv", "-l", "PENINSULA", "-l", "CANARIAS"],
+        vec!["-c", "@c.csv", "-l", "PENINSULA", "-a", "+2.5", "-k", "+0.5"],
+        vec!["-c", "@c.csv", "-l", "PENINSULA", "-a", " 3 ", "-k", " 1 "],
+        vec!["-c", "@c.csv", "-l", "PENINSULA", "-a", "1e2", "-k", "5e-1"],
+        vec!["-c", "@c.csv", "-l", "PENINSULA", "-a", "", "-k", ""],
+        vec!["-c", "@c.csv", "-l", ""],
+        vec!["-c", "", "-l", "PENINSULA"],
+        vec!["--", "-c", "@c.csv"],
+        vec!["-c", "@c.csv", "-l", "PENINSULA", "--"],
+        vec!["-c", "@sub/../c.csv", "-l", "PENINSULA"],
+        vec!["-c", "@c.csv", "-l", "PENINSULA", "-vv", "-vv", "-F", "-F"],
+        vec!["-c", "@c.csv", "-f", "@f bom.csv"],
+        vec!["-c", "@a b.csv", "-l", "PENINSULA", "--json", "@o ñ.json"],
+        vec!["-c", "@crlf.csv", "-l", "PENINSULA"],
+        vec!["-c", "@cr.csv", "-l", "PENINSULA"],
+        vec!["-c", "@nonl.csv", "-l", "PENINSULA"],
+        vec!["-c", "@comments.csv", "-l", "PENINSULA", "--oc", "@oc.csv", "--of", "@of.csv"],
+        vec!["-c", "@long.csv", "-l", "PENINSULA"],
+    ]);
+    let fbom = format!("{}{}", '\u{feff}', subj::RAW_J);
+    let crlf = base.replace('\n', "\r\n");
+    let cr = base.replace('\n', "\r");
+    let nonl = base.trim_end().to_string();
+    let long = format!("CONSUMO, ILU, ELECTRICIDAD, {}\n", vec!["1.5"; 8760 * 4].join(", "));
+    for args in env_cases {
+        let o = cli::run(
+            &cli::sv(&args),
+            &[("c.csv", base.as_bytes()), ("a b.csv", base.as_bytes()), ("f bom.csv", fbom.as_bytes()), ("crlf.csv", crlf.as_bytes()), ("cr.csv", cr.as_bytes()), ("nonl.csv", nonl.as_bytes()), ("comments.csv", b"# solo comentarios\n#META CTE_AREAREF: 10\n\n"), ("long.csv", long.as_bytes())],
+            &[],
+            Some(5),
+            Duration::from_secs(20),
+        );
+        judge_cli(&o, &format!("{args:?}"), out);
+    }
 }
 
 pub fn numeric_options_in_process(out: &mut Out) {
